@@ -7,6 +7,8 @@ GenInit == /\ MCInit
                              pruned |-> Mask(PrunedOf(db)),
                              acc_present |-> IF KAcc \in DOMAIN db.rt THEN 1 ELSE 0,
                              hdr_present |-> IF KHdr \in DOMAIN db.rt THEN 1 ELSE 0,
+                             tables |-> db.tabs, ident |-> IF db.ident THEN 1 ELSE 0,
+                             post_tables |-> OpenDb(db).tabs, post_ident |-> IF OpenDb(db).ident THEN 1 ELSE 0,
                              refused |-> IF Refused(db) THEN 1 ELSE 0,
                              post_ver |-> OpenDb(db).ver,
                              post_stored |-> Mask(StoredOf(OpenDb(db))),
